@@ -16,9 +16,9 @@ ASSUMPTIONS = [
     "Vec is modelled as a list (capacity unobservable)",
     "Path::stroke / Path::dash outputs are covered through the builder theorem only in so far as those producers use the modelled builder methods (checked by the C05/C07 correspondences)",
 ]
-RULE = ("builder call sequences: exhaustive over all sequences up to length L (L=4 quick, 5 thorough) over an 11-op alphabet "
+RULE = ("builder call sequences: exhaustive over all sequences up to length L (L=4 quick, 5 thorough) over a 12-op alphabet (incl. finish+Path::clear rebuild) "
         "with fixed small arguments, plus seeded random sequences (length 1..60) with arguments from a boundary pool "
-        "(finite, huge, subnormal, +-0, inf, NaN), nested push_path; a case is non-trivial when finish returns a path; "
+        "(finite, huge, subnormal, +-0, inf, NaN), nested push_path; Path::transform of built paths under identity/translate/scale/general/non-finite matrices with fractional coordinates; a case is non-trivial when finish returns a path; "
         "distinct = distinct case line")
 
 POOL_FINITE = [0, f2b(1.0), f2b(-1.0), f2b(2.5), f2b(100.0), NZERO, f2b(1e-3), f2b(37.25), f2b(-512.0)]
@@ -29,7 +29,7 @@ A = f2b(1.0); B = f2b(2.0); C = f2b(3.0); Z = 0
 
 ALPHABET = [
     [0, A, A], [0, B, Z], [1, B, B], [1, Z, C], [2, A, B, C, A], [3, A, Z, B, C, C, Z], [4],
-    [5, Z, Z, B, C], [6, Z, Z, B, B], [7, A, A, A], [9],
+    [5, Z, Z, B, C], [6, Z, Z, B, B], [7, A, A, A], [9], [10],
 ]
 SUBPATHS = [[0, Z, Z, 1, A, A], [5, Z, Z, A, A], [0, A, B, 1, B, A, 4, 1, C, C]]
 
@@ -48,15 +48,15 @@ def rand_f(rng, bad):
 def rand_ops(rng, n, bad, depth=0):
     out = []
     for _ in range(n):
-        k = rng.choice([0, 0, 1, 1, 1, 2, 3, 4, 4, 5, 6, 7, 8, 9] if depth == 0 else [0, 1, 1, 2, 3, 4, 5])
+        k = rng.choice([0, 0, 1, 1, 1, 2, 3, 4, 4, 5, 6, 7, 8, 9, 10] if depth == 0 else [0, 1, 1, 2, 3, 4, 5])
         if k == 0 or k == 1:
             out += [k, rand_f(rng, bad), rand_f(rng, bad)]
         elif k == 2:
             out += [2] + [rand_f(rng, bad) for _ in range(4)]
         elif k == 3:
             out += [3] + [rand_f(rng, bad) for _ in range(6)]
-        elif k == 4 or k == 9:
-            if k == 9 and rng.random() < 0.7:
+        elif k == 4 or k == 9 or k == 10:
+            if k != 4 and rng.random() < 0.6:
                 k = 4
             out += [k]
         elif k == 5 or k == 6:
@@ -78,6 +78,15 @@ def rand_ops(rng, n, bad, depth=0):
     return out
 
 
+def rand_ops_frac(rng, n):
+    out = []
+    fr = lambda: f2b(rng.choice([0.1, 0.2, 0.7, 1.1, 0.9, 2.5, -0.3, 17.35, 100.0, 0.0]))
+    for _ in range(n):
+        k = rng.choice([0, 1, 1, 1, 2, 3, 4])
+        out += [k] + [fr() for _ in range({0: 2, 1: 2, 2: 4, 3: 6, 4: 0}[k])]
+    return out
+
+
 def gen_cases(rng, tier):
     cases = []
     L = 4 if tier == "quick" else 5
@@ -95,6 +104,23 @@ def gen_cases(rng, tier):
     for i in range(nrand):
         bad = (i % 4 == 0)
         cases.append(("c14_builder", rand_ops(rng, rng.randint(1, 60 if i % 10 == 0 else 12), bad)))
+    # Path::transform: identity, translate, scale+translate, general; fractional and boundary entries
+    ntr = 3000 if tier == "quick" else 40000
+    for i in range(ntr):
+        kind = i % 5
+        fr = lambda: f2b(rng.choice([0.1, 0.3, 0.7, 1.1, -2.3, 0.2, 1e-3, 123.456, 3.3333333]))
+        if kind == 0:
+            t = [A, Z, Z, A, fr(), fr()]
+        elif kind == 1:
+            t = [fr(), Z, Z, fr(), fr(), fr()]
+        elif kind == 2:
+            t = [fr(), fr(), fr(), fr(), fr(), fr()]
+        elif kind == 3:
+            t = [rand_f(rng, True) for _ in range(6)]
+        else:
+            t = [A, Z, Z, A, rng.choice([Z, NZERO]), Z]
+        ops = rand_ops_frac(rng, rng.randint(2, 8))
+        cases.append(("c14_transform", t + ops))
     # Rect::from_points directly: lengths 0..9, boundary values (NaN / inf in every position)
     for n in range(0, 10):
         for _ in range(60 if tier == "quick" else 600):
@@ -129,7 +155,7 @@ def oracle(suite, args, out):
         n = len(args) // 2
         pts = args[:2 * n]
         return check_bounds(pts, o)
-    if o == [-1]:
+    if o in ([-1], [-2], [-3]):
         return None
     nv = o[0]
     verbs = o[1:1 + nv]
@@ -182,14 +208,14 @@ def relation(suite, args, mo, io):
 
 
 def nontrivial_tag(suite, args, out):
-    if out == "-1":
+    if out in ("-1", "-2", "-3"):
         return None
     if suite == "from_points":
         return "from_points:some:%d" % (len(args) // 2)
     o = ints(out) if out and out[0].isdigit() else None
     if not o:
         return None
-    return "path:verbs=%d" % min(o[0], 20)
+    return "%s:verbs=%d" % (suite, min(o[0], 20))
 
 
 def shrink_case(suite, args):
